@@ -6,17 +6,17 @@ TECH = "bounded-exhaustive explicit-state exploration of the real code (own expl
 
 CHECKS = {
  "C08": dict(
-   text="Every state of the SELECT / INSERT / UPDATE / DELETE builder-call state machines (QModel: BFS to depth 4 quick / 5 thorough) and every member of enumerated families of dialect-specific constructs is rendered by the real MySQL and PostgreSQL backends in both modes (to_string, build). The text must be accepted by that dialect's reference clause parser (written from the manuals' statement synopses over the reference lexer and expression parser: each clause at most once, in the grammar's position, constructs of the other dialect rejected) and its normalised clause structure (select list, FROM, joins and ON, WHERE, GROUP BY, HAVING, WINDOW, set operations, ORDER BY with NULLS form, LIMIT / OFFSET, locking, CTEs, upsert, RETURNING, UPDATE tables / SET / FROM) must equal that of an independently written explicit reference rendering of the reference state in the dialect's own forms. Families: MySQL index hints (all sequences of <= 2 / 3 hints over kind x scope, with and without following clauses), DISTINCT ON, TABLESAMPLE, named WINDOW with all 32 subsets of surrounding clauses, locking (4 strengths x OF tables x wait policy), CTEs (count x column list x materialisation x SEARCH / CYCLE), 17 PostgreSQL operators and 9 functions, enum casts in 3 positions, join forms (no ON, alias, subquery, lateral), ORDER BY forms (direction / FIELD x NULLS x SELECT / window / UPDATE / DELETE, 1-2 keys).",
+   text="Every state of the SELECT / INSERT / UPDATE / DELETE builder-call state machines (QModel: BFS to depth 4 quick / 5 thorough) and every member of enumerated families of dialect-specific constructs is rendered by the real MySQL and PostgreSQL backends in both modes (to_string, build). The text must be accepted by that dialect's reference clause parser (written from the manuals' statement synopses over the reference lexer and expression parser: each clause at most once, in the grammar's position, constructs of the other dialect rejected) and its normalised clause structure (select list, FROM, joins and ON, WHERE, GROUP BY, HAVING, WINDOW, set operations, ORDER BY with NULLS form, LIMIT / OFFSET, locking, CTEs, upsert, RETURNING, UPDATE tables / SET / FROM) must equal that of an independently written explicit reference rendering of the reference state in the dialect's own forms. Families: MySQL index hints (all sequences of <= 2 / 3 hints over kind x scope, with and without following clauses), DISTINCT ON, TABLESAMPLE, named WINDOW with all 32 subsets of surrounding clauses, locking (4 strengths x OF tables x wait policy), CTEs (count x column list x materialisation x SEARCH / CYCLE), 17 PostgreSQL operators and 9 functions, enum casts in 3 positions, join forms (no ON, alias, subquery, lateral), ORDER BY forms (direction / FIELD x NULLS x SELECT / window / UPDATE / DELETE, 1-2 keys). The 89 API-variant equivalences of C07 are run for MySQL and PostgreSQL here.",
    note="Trusted: the reference clause grammars (no MySQL / PostgreSQL engine offline), the explicit reference renderer, and the normal form (parentheses, AND / OR associativity, TRUE conjuncts, IFNULL = COALESCE, MySQL `x IS NULL dir, x dir` = NULLS FIRST / LAST, MySQL UPDATE .. JOIN .. ON = comma form with WHERE). Requests a dialect cannot express (FULL OUTER JOIN on MySQL; CROSS JOIN .. ON, UPDATE / DELETE .. ORDER BY / LIMIT and REPLACE on PostgreSQL; PostgreSQL-only lock strengths, operators and functions on MySQL) are out of domain and counted. Set operations are compared as a flat list (precedence is C09's subject).",
    technique=TECH+"BFS over builder-call histories plus exhaustive enumeration of dialect-construct families, oracle = reference clause parser per dialect and structural comparison with an explicit reference rendering",
    ref="3.8"),
  "C13": dict(
-   text="Two SQLite databases are driven in lock-step: one executes sea-query's rendering, the other an independently written explicit reference rendering of the same declaration; after every statement the engines' own catalogues (pragma table_xinfo / index_list / index_xinfo / foreign_key_list, sqlite_master, declared types reduced to affinity by SQLite's documented rule, which is itself checked against typeof() probes on every run) and the outcomes of behavioural probes (default row, violating / duplicate inserts) must be identical, and each abstract type must carry its intended affinity. Spaces: (1) single-column tables: 37 ColumnType/parameter combinations x every permutation of every subset of size <= 3 (quick) / 4 (thorough, 4 representative types) of 12 column specifications; (2) 756 multi-column tables: table-level primary key (single / composite), unique index (with direction), foreign key with all 36 action pairs, check, IF NOT EXISTS; (3) every sequence of 3 (quick) / 4 (thorough) follow-up statements over a 17-statement menu (ADD / RENAME / DROP COLUMN, RENAME TABLE, CREATE [UNIQUE] INDEX [IF NOT EXISTS] [partial] [direction], DROP INDEX [IF EXISTS], DROP TABLE [IF EXISTS]) - a state machine whose state is the real catalogue. Run in the default and the option-sqlite-exact-column-type build.",
+   text="Two SQLite databases are driven in lock-step: one executes sea-query's rendering, the other an independently written explicit reference rendering of the same declaration; after every statement the engines' own catalogues (pragma table_xinfo / index_list / index_xinfo / foreign_key_list, sqlite_master, declared types reduced to affinity by SQLite's documented rule, which is itself checked against typeof() probes on every run) and the outcomes of behavioural probes (default row, violating / duplicate inserts) must be identical, and each abstract type must carry its intended affinity. Spaces: (1) single-column tables: 37 ColumnType/parameter combinations x every permutation of every subset of size <= 3 (quick) / 4 (thorough, 4 representative types) of 12 column specifications; (2) 756 multi-column tables: table-level primary key (single / composite), unique index (with direction), foreign key with all 36 action pairs, check, IF NOT EXISTS; (3) every sequence of 3 (quick) / 4 (thorough) follow-up statements over a 19-statement menu (ADD / RENAME / DROP COLUMN, RENAME TABLE, CREATE [UNIQUE] INDEX [IF NOT EXISTS] [partial: one predicate, two predicates, any-group + predicate; the stored predicate is read back from sqlite_master and compared as an expression tree] [direction], DROP INDEX [IF EXISTS], DROP TABLE [IF EXISTS]) - a state machine whose state is the real catalogue. Run in the default and the option-sqlite-exact-column-type build.",
    note="Trusted: the explicit reference DDL renderer and the table of intended affinities (integer types -> INTEGER; float/double/decimal/money -> REAL; char/string/text/date-time/json/uuid/enum -> TEXT; binary/blob -> BLOB; boolean -> NUMERIC or INTEGER). Declarations whose REFERENCE the engine rejects (contradictory specifications, AUTOINCREMENT on a non-INTEGER key) are out of domain and counted.",
    technique=TECH+"exhaustive enumeration of declarations and of statement sequences, oracle = differential catalogue comparison on two real SQLite engines",
    ref="3.13"),
  "C14": dict(
-   text="Every enumerated schema declaration is rendered by the real MySQL and PostgreSQL backends and parsed by that dialect's reference DDL parser (written from the manuals' statement synopses on top of the reference lexer and expression parser); the parse must succeed and return exactly the declared elements, in order, with a type name the dialect defines and lengths / precision / unsigned-ness / array dimensions preserved. Spaces, x {MySQL, PostgreSQL}: (1) 51 ColumnType/parameter combinations x every permutation of every subset of size <= 3 (quick) / 4 (thorough) of 11 column specifications, through CREATE TABLE and through ALTER TABLE ADD COLUMN; (2) 3847 tables: all subsets of {TEMPORARY, IF NOT EXISTS, table primary key (unnamed / named composite), unique, plain and FULLTEXT inline index, foreign key (9 action pairs), table check, table comment} plus all subsets of ENGINE / COLLATE / CHARACTER SET; (3) ALTER TABLE option sequences up to length 2 (quick) / 3 (thorough) over ADD COLUMN [IF NOT EXISTS], RENAME / DROP COLUMN, ADD / DROP FOREIGN KEY and MODIFY COLUMN with and without a type and every permutation of <= 2 specifications; (4) CREATE INDEX (all 128 flag subsets, partial, schema-qualified, full-text), DROP INDEX, CREATE FOREIGN KEY with all 36 action pairs, DROP FOREIGN KEY, RENAME / DROP (all flag subsets) / TRUNCATE TABLE, and PostgreSQL CREATE / DROP / ALTER TYPE and CREATE / DROP EXTENSION with all flag subsets.",
+   text="Every enumerated schema declaration is rendered by the real MySQL and PostgreSQL backends and parsed by that dialect's reference DDL parser (written from the manuals' statement synopses on top of the reference lexer and expression parser); the parse must succeed and return exactly the declared elements, in order, with a type name the dialect defines and lengths / precision / unsigned-ness / array dimensions preserved. Spaces, x {MySQL, PostgreSQL}: (1) 51 ColumnType/parameter combinations x every permutation of every subset of size <= 3 (quick) / 4 (thorough) of 11 column specifications, through CREATE TABLE and through ALTER TABLE ADD COLUMN; (2) 3847 tables: all subsets of {TEMPORARY, IF NOT EXISTS, table primary key (unnamed / named composite), unique, plain and FULLTEXT inline index, foreign key (9 action pairs, named and unnamed), table check, table comment} plus all subsets of ENGINE / COLLATE / CHARACTER SET; (3) ALTER TABLE option sequences up to length 2 (quick) / 3 (thorough) over ADD COLUMN [IF NOT EXISTS], RENAME / DROP COLUMN, ADD (named / unnamed) / DROP FOREIGN KEY and MODIFY COLUMN with and without a type and every permutation of <= 2 specifications; (4) CREATE INDEX (all 128 flag subsets, partial, schema-qualified, full-text), DROP INDEX, CREATE FOREIGN KEY with all 36 action pairs and unnamed, DROP FOREIGN KEY, RENAME / DROP (all flag subsets) / TRUNCATE TABLE, and PostgreSQL CREATE / DROP / ALTER TYPE and CREATE / DROP EXTENSION with all flag subsets.",
    note="Trusted: the reference DDL grammar (no MySQL / PostgreSQL engine is available offline) and the per-dialect table of accepted type names. Combinations the backend documents as unsupported (PostgreSQL auto_increment on non-integer types, MySQL interval / array / network types, PostgreSQL year, MySQL-only table options on PostgreSQL, contradictory specifications) are out of domain and counted.",
    technique=TECH+"exhaustive enumeration of schema declarations and ALTER option sequences, oracle = reference DDL parser per dialect compared with the declaration",
    ref="3.14"),
@@ -67,7 +67,7 @@ CHECKS = {
    technique=TECH+"all condition trees up to a size bound and all call sequences up to depth 3, oracle = three-valued truth tables on a real SQLite engine",
    ref="3.6"),
  "C07": dict(
-   text="Explicit-state BFS over builder-call histories of the real SelectStatement (57-op menu: columns, 12 expression kinds incl. CASE / functions / custom templates / scalar subqueries, window functions with frames, DISTINCT, FROM table / alias / subquery / VALUES, every join type, and_where / cond_where / IN-subquery / EXISTS, GROUP BY, HAVING, UNION / INTERSECT / EXCEPT, ORDER BY with NULLS and FIELD, LIMIT / OFFSET, CTE) to depth 4 (quick) / 5 (thorough), and of INSERT (VALUES / SELECT / DEFAULT VALUES / REPLACE / 11 ON CONFLICT variants / RETURNING), UPDATE (SET, FROM, WHERE, ORDER BY, LIMIT, RETURNING) and DELETE to depth 4 / 5. In every state whose independently written, fully explicit reference rendering the real SQLite engine accepts, to_string and build+bind are executed on the engine inside a rolled-back transaction and must give the reference's result rows (ordered when ORDER BY is present), RETURNING rows, changes() and table contents.",
+   text="Explicit-state BFS over builder-call histories of the real SelectStatement (57-op menu: columns, 12 expression kinds incl. CASE / functions / custom templates / scalar subqueries, window functions with frames, DISTINCT, FROM table / alias / subquery / VALUES, every join type, and_where / cond_where / IN-subquery / EXISTS, GROUP BY, HAVING, UNION / INTERSECT / EXCEPT, ORDER BY with NULLS and FIELD, LIMIT / OFFSET, CTE) to depth 4 (quick) / 5 (thorough), and of INSERT (VALUES / SELECT / DEFAULT VALUES / REPLACE / 11 ON CONFLICT variants / RETURNING), UPDATE (SET, FROM, WHERE, ORDER BY, LIMIT, RETURNING) and DELETE to depth 4 / 5. In every state whose independently written, fully explicit reference rendering the real SQLite engine accepts, to_string and build+bind are executed on the engine inside a rolled-back transaction and must give the reference's result rows (ordered when ORDER BY is present), RETURNING rows, changes() and table contents. In addition every public convenience method of the four statement builders, OnConflict and ReturningClause (89 variants: left_join .. full_outer_join, join_as, join_subquery, columns, exprs, expr_window*, from_as / from_subquery / from_values / from_function, group_by_columns, and_where_option, conditions, apply_if, the order_by_* family on SELECT / UPDATE / DELETE, lock_shared / lock_exclusive, unions, values_panic / values_from_panic, returning_col / returning_all, update_column(s), value(s) ...) is applied on top of every base statement (all sequences of <= 2 canonical calls) and must render exactly like its canonical spelling (text and bound values, both modes), which reduces its meaning to the canonical method's, decided by the state machine.",
    note="Trusted: the explicit reference renderer (qmodel.rs / dml.rs), written from SQLite's syntax diagrams; states whose REFERENCE the engine rejects are out of domain (counted by reason; every op class must occur in executed states or the run is a machinery failure). Nested statements come from a representative pool of 4. Two genuine defects repaired by fix: commits.",
    technique=TECH+"BFS over builder-call histories with state deduplication, oracle = differential execution on a real SQLite engine against a reference rendering",
    ref="3.7"),
